@@ -39,6 +39,8 @@ class Gen:
         self.next_id = 1
         self.files = {}          # content -> name (names are a function of the content)
         self.warm = []
+        self.with_contents = rng.random() < 0.7   # one decision per case: a shared name carries the same content everywhere
+        self.ninner = 0
 
     def text(self, maxlen=12):
         r = self.rng
@@ -83,7 +85,7 @@ class Gen:
         if inner_name is not None:
             k = r.randrange(0, ns)
             sources[k] = inner_name
-        with_contents = r.random() < 0.7
+        with_contents = self.with_contents
         nn = weighted(r, [(0, 3), (1, 2), (2, 2), (3, 1)])
         names = [r.choice(['n1', 'n2', 'a', 'b', 'ab']) for _ in range(nn)]
         segs = []
@@ -145,7 +147,8 @@ class Gen:
 
     def combined(self, value, name):
         r = self.rng
-        inner_name = 'inner.js'
+        inner_name = 'inner%d.js' % self.ninner
+        self.ninner += 1
         original = self.text(14)
         outer = self.consistent_map(value, nsources=weighted(r, [(1, 3), (2, 3), (3, 2)]), inner_name=inner_name)
         k = outer['sources'].index(inner_name)
